@@ -131,7 +131,11 @@ func stCase(o *h.Out, rc *h.Rng, ans func(string)) {
 		if err != nil {
 			panic(err)
 		}
-		sdb, err = state.New(root, common.Hash{}, new(big.Int), db, db, nil, stLoc, log.Global)
+		// the parent's state-size commitment: one object handed to every execution that starts from this
+		// parent, the way the cached parent header's field is
+		parentSize := new(big.Int).Set(sdb.GetQuaiTrieSize())
+		parentSizeWas := parentSize.String()
+		sdb, err = state.New(root, common.Hash{}, parentSize, db, db, nil, stLoc, log.Global)
 		if err != nil {
 			panic(err)
 		}
@@ -361,15 +365,25 @@ func stCase(o *h.Out, rc *h.Rng, ans func(string)) {
 		o.Op("dump")
 		ans(stDump(sdb))
 		// T3: the state commitment equals the one reached by executing only the non-reverted operations
-		ref, err := state.New(root, common.Hash{}, new(big.Int), db, db, nil, stLoc, log.Global)
+		a := sdb.IntermediateRoot(true)
+		sizeA := sdb.GetQuaiTrieSize().String()
+		// C06: executing on a parent leaves the parent as it was, so that the next execution from the same
+		// parent object (a second run of the block, a sibling, the assembler) starts from the same inputs
+		if now := parentSize.String(); now != parentSizeWas {
+			o.Violate("c06-execution-changes-the-parent-state-size", fmt.Sprintf("the parent's state size handed to the execution was %s and is %s after it", parentSizeWas, now))
+		}
+		ref, err := state.New(root, common.Hash{}, parentSize, db, db, nil, stLoc, log.Global)
 		if err != nil {
 			panic(err)
 		}
 		for _, f := range base {
 			f(ref)
 		}
-		if a, b := sdb.IntermediateRoot(true), ref.IntermediateRoot(true); a != b {
+		b := ref.IntermediateRoot(true)
+		if a != b {
 			o.Violate("c12-root-differs-from-reexecution", fmt.Sprintf("state root %x after the program with reverted frames, %x when only the non-reverted operations are executed", a[:6], b[:6]))
+		} else if sizeB := ref.GetQuaiTrieSize().String(); sizeA != sizeB {
+			o.Violate("c06-state-size-differs-between-runs", fmt.Sprintf("the same committed operations on the same parent give state root %x both times and state size %s the first, %s the second time", a[:6], sizeA, sizeB))
 		}
 		o.EndCase(fmt.Sprint(rc.U64()), reverts > 0 && len(kinds) >= 4)
 	}
